@@ -167,6 +167,17 @@ func c08Setup(shapes []c08Shape) *pg.Prog {
 		}
 		it.Methods = append(it.Methods, m)
 	}
+	if len(shapes) > 1 {
+		// a neighbour (in the interface that is generated first) that declares its operands with exactly the names the
+		// tool uses by default, and one whose receiver is called src: the defaults of the other methods stay what they are
+		first := &it
+		if len(alpha.Methods) > 0 {
+			first = &alpha
+		}
+		first.Methods = append(first.Methods,
+			pg.Method{Name: "AaaDeclaresTheDefaultNames", SrcType: "LInner", DstType: "LInner2", SrcPtr: true, DstPtr: true, SrcName: "src", DstName: "dst", Extras: []pg.Param{{Name: "arg0", Type: "int"}}},
+			pg.Method{Name: "AabReceiverCalledSrc", SrcType: "LInner2", DstType: "LInner", SrcPtr: true, DstPtr: true, Recv: "src"})
+	}
 	if len(shapes) == 1 && !shapes[0].legal() {
 		// an illegal shape is not alone: a legal method that sorts after it must not make the run succeed
 		it.Methods = append(it.Methods, pg.Method{Name: "ZzzLegalNeighbour", SrcType: "LInner", DstType: "LInner2", SrcPtr: true, DstPtr: true})
